@@ -20,7 +20,7 @@ STRS = [
     "yes", "no", "on", "off", "010", "1:30", "~", "%c", "%c%c", "%5.2f", "%x",
     "x\n   \ny\n", "a\n\nb",
 ]
-KEYS_STR = ["a", "b", "c", "x", "y", "", "0", "1", "A", "key", "path", "a.b", "value", "keys", "paths", "{x}", "a}", "${HOME}", "%(k)s"]
+KEYS_STR = ["a", "b", "c", "x", "y", "", "0", "1", "A", "key", "path", " path", "path ", "a.b", "value", "keys", "paths", "{x}", "a}", "${HOME}", "%(k)s"]
 KEYS_OTHER = [0, 1, 2, True, False, 2.5, None, -1, 1.5, 10, -0.0, 1e300, 2**40]
 KEYS_RARE = ["e\u0301", "\u212b", "\u00e9", "k" * 700, "yes", "no", "on", "off", "y", "n", "010", "1:30", "~", "null", "0x1F", "1_000", " ", "a b", "line\nbreak", "tab\t", "é", "None", "True", "1.0", "-1", "a.b.c", "a/b", "k" * 60, "'q'", '"dq"', "#", "- x", "?", ":", "*", "&a"]
 
